@@ -856,7 +856,8 @@ func runGroup(tb ev.TB, c groupCase) (labels []string, nontrivial bool) {
 	defer cl.Close()
 	cl.CreateTopic("t", 3)
 	var mu sync.Mutex
-	coordErrs, syncErrs := 0, 0
+	coordErrs, syncErrs, assignErrs := 0, 0, 0
+	joinConns := map[int]bool{}
 	cl.SetHook(func(cl *fakecluster.Cluster, r *fakecluster.Request) *fakecluster.Action {
 		mu.Lock()
 		defer mu.Unlock()
@@ -873,6 +874,13 @@ func runGroup(tb ev.TB, c groupCase) (labels []string, nontrivial bool) {
 			return &fakecluster.Action{NoResponse: true, Tag: "stall"}
 		case c.BrokerState == "leave-stall" && r.ApiKey == 13:
 			return &fakecluster.Action{NoResponse: true, Tag: "stall"}
+		case c.BrokerState == "assign-error" && r.ApiKey == 11:
+			joinConns[r.ConnID] = true
+		case c.BrokerState == "assign-error" && r.ApiKey == 3 && joinConns[r.ConnID] && assignErrs < 2:
+			// the partition lookup of the elected leader fails (not with "unknown topic"): the join fails after the
+			// coordinator has handed out a member id
+			assignErrs++
+			return &fakecluster.Action{ErrorCode: 5, ErrorField: "topic", Tag: "assign-error"}
 		case c.BrokerState == "slow":
 			return &fakecluster.Action{Delay: 3 * time.Millisecond, Tag: "slow"}
 		}
@@ -963,6 +971,7 @@ func runGroup(tb ev.TB, c groupCase) (labels []string, nontrivial bool) {
 	}
 	time.Sleep(time.Duration(c.DelayUs) * time.Microsecond)
 	joinedBefore := len(cl.GroupMembers("g"))
+	closeStartedAt := time.Now()
 	var closedAt time.Time
 	for i, m := range members {
 		done := make(chan struct{})
@@ -1017,6 +1026,28 @@ func runGroup(tb ev.TB, c groupCase) (labels []string, nontrivial bool) {
 			return
 		}
 	}
+	// "leaves the consumer group it had joined": once every Close has returned the coordinator lists none of the member
+	// ids it had handed to these clients (a coordinator that does not answer cannot be left: those states make no claim)
+	switch c.BrokerState {
+	case "normal", "coord-error", "sync-error", "assign-error", "slow":
+		handed := map[string]int64{}
+		for _, ex := range cl.Journal() {
+			if ex.ApiKey == 11 && ex.Outcome == "answered" && ex.RespBody != nil {
+				// (a join answered only after Close was called may never have reached the client)
+				if code, _ := ex.RespBody["ErrorCode"].(int64); code == 0 && ex.AnsweredAt.Before(closeStartedAt) {
+					if id, _ := ex.RespBody["MemberID"].(string); id != "" {
+						handed[id] = ex.Seq
+					}
+				}
+			}
+		}
+		for _, id := range cl.GroupMembers("g") {
+			if seq, ok := handed[id]; ok {
+				fail("c09/group-member-not-released", "every ConsumerGroup.Close has returned, yet the coordinator still lists member %q, the id it handed out in JoinGroup seq %d: no LeaveGroup was sent for it", id, seq)
+				return
+			}
+		}
+	}
 	if leftover := waitNoLibraryGoroutines(base, 8*time.Second); leftover != nil {
 		var kinds []string
 		for _, g := range leftover {
@@ -1047,7 +1078,7 @@ func TestGroupClose(t *testing.T) {
 	rapid.Check(t, func(t *rapid.T) {
 		c := groupCase{
 			Members:     rapid.IntRange(1, 3).Draw(t, "members"),
-			BrokerState: rapid.SampledFrom([]string{"normal", "normal", "normal", "coord-error", "join-stall", "sync-error", "heartbeat-stall", "leave-stall", "slow"}).Draw(t, "broker"),
+			BrokerState: rapid.SampledFrom([]string{"normal", "normal", "normal", "coord-error", "join-stall", "sync-error", "heartbeat-stall", "leave-stall", "assign-error", "assign-error", "slow"}).Draw(t, "broker"),
 			ClosePoint:  rapid.SampledFrom([]string{"during-next", "in-generation", "in-generation", "after-fn-exit", "error-pending"}).Draw(t, "closePoint"),
 			DelayUs:     rapid.SampledFrom([]int{0, 100, 2000, 15000, 60000}).Draw(t, "delayUs"),
 			Fns:         rapid.IntRange(0, 3).Draw(t, "fns"),
